@@ -1,5 +1,5 @@
 (* Loader.v — executable model of the loaders of lyraproj/pcore, as the code is NOW (after the fixes
-   e8cb2ca, 305662b, 3bc6110):
+   e8cb2ca, 305662b, 3bc6110, 8923fe0, e06ca50, 93f19c3, 6364f0d):
      loader/loader.go       basicLoader, parentedLoader, typeSetLoader, load()
      loader/dependency.go   dependencyLoader without module loaders (px.NewDependencyLoader(nil))
      types/typedname.go     newTypedName2, MapKey, Parts, IsParent, RelativeTo, child, typedNameFromMapKey
@@ -10,10 +10,10 @@
 
    A loader tree is a list of nodes in creation order; a node refers to its parent by index (always
    smaller than its own).  A node owns `namedEntries` as an association list from map key to entry
-   value, where `None` is the cached miss (`&loaderEntry{nil, nil}`, loader.go:19).  Go's map iteration
+   value, where `None` is the cached miss (`&loaderEntry{nil, nil}`, loader.go:20).  Go's map iteration
    order is not modelled: the only iteration (Discover) sorts its result.
    Entries are never shared between two maps in the modelled code paths (every SetEntry argument is a
-   fresh `&loaderEntry{}`), so `*old = *entry` (loader.go:129) is an in-place replacement of the value.
+   fresh `&loaderEntry{}`) and since 6364f0d an entry is never written to after it was stored.
 
    Not modelled (the domain `tn_wf` of the theorems excludes it, the harness never generates it): the
    InvalidCharactersInName panic of TypedName.Parts for a name segment outside [A-Za-z][0-9A-Za-z_]*;
@@ -27,9 +27,9 @@ Import ListNotations.
    px.Equality (and then its equivalence class under Equals), whether it is a px.Type. *)
 Record val := mkV { vid : N; vcls : option N; vty : bool }.
 
-(* Go: `ov == nv` on interface values holding pointers — identity (loader.go:133) *)
+(* Go: `ov == nv` on interface values holding pointers — identity (loader.go:150) *)
 Definition val_same (o n : val) : bool := N.eqb (vid o) (vid n).
-(* Go: `ea, ok := ov.(px.Equality); ok && ea.Equals(nv, nil)` (loader.go:136) *)
+(* Go: `ea, ok := ov.(px.Equality); ok && ea.Equals(nv, nil)` (loader.go:153) *)
 Definition val_equals (o n : val) : bool :=
   match vcls o, vcls n with Some a, Some b => N.eqb a b | _, _ => false end.
 Definition val_eqb (a b : val) : bool :=
@@ -58,7 +58,7 @@ Definition new_typed_name (ns name auth : str) : tname := mkTn auth ns (trim_cc 
 (* the harness hands (authority, namespace, raw name) to px.NewTypedName2 *)
 Definition norm (n : tname) : tname := new_typed_name (tn_ns n) (tn_name n) (tn_auth n).
 
-(* typedname.go:230 MapKey: strings.ToLower(authority + "/" + namespace + "/" + name) *)
+(* typedname.go:232 MapKey (computed by newTypedName2 :123 since the canonical form is shared): strings.ToLower(authority + "/" + namespace + "/" + name) *)
 Definition map_key (n : tname) : str :=
   to_lower (tn_auth n ++ c_slash :: tn_ns n ++ c_slash :: tn_name n).
 
@@ -75,13 +75,13 @@ Fixpoint split_cc_aux (s cur : str) : list str :=
   end.
 Definition split_cc (s : str) : list str := split_cc_aux s [].
 
-(* typedname.go:237 Parts (without the character check, see header) *)
+(* typedname.go:239 Parts (without the character check, see header) *)
 Definition parts (n : tname) : list str := split_cc (to_lower (tn_name n)).
 
-(* typedname.go:218 IsQualified: strings.Contains(name, "::") resp. len(parts) > 1 *)
+(* typedname.go:225 IsQualified: strings.Contains(name, "::") resp. len(parts) > 1 *)
 Definition is_qualified (n : tname) : bool := Nat.ltb 1 (length (parts n)).
 
-(* typedname.go:196 IsParent: t's parts are a strict prefix of o's (namespace and authority are not compared) *)
+(* typedname.go:203 IsParent: t's parts are a strict prefix of o's (namespace and authority are not compared) *)
 Fixpoint prefix_eqb (a b : list str) : bool :=
   match a, b with
   | [], _ => true
@@ -91,7 +91,7 @@ Fixpoint prefix_eqb (a b : list str) : bool :=
 Definition is_parent (t o : tname) : bool :=
   Nat.ltb (length (parts t)) (length (parts o)) && prefix_eqb (parts t) (parts o).
 
-(* typedname.go:143 child(stripCount): `sx = strings.Index(name, "::")`, `name = name[sx+2:]`, stripCount times *)
+(* typedname.go:145 child(stripCount): `sx = strings.Index(name, "::")`, `name = name[sx+2:]`, stripCount times *)
 Fixpoint drop_seg (s : str) : option str :=
   match s with
   | [] => None
@@ -107,7 +107,7 @@ Fixpoint child_name (k : nat) (s : str) : option str :=
   | S k' => match drop_seg s with Some s' => child_name k' s' | None => None end
   end.
 
-(* typedname.go:209 RelativeTo.  `child` answers nil when the name has too few "::" — impossible after
+(* typedname.go:218 RelativeTo.  `child` answers nil when the name has too few "::" — impossible after
    IsParent (the name has more parts than the parent); that case is merged into "not relative" here. *)
 Definition relative_to (n parent : tname) : option tname :=
   if is_parent parent n then
@@ -128,7 +128,7 @@ Fixpoint split_last_slash (s : str) : option (str * str) :=
     end
   end.
 
-(* typedname.go:125 typedNameFromMapKey; None = panic InvalidTypedNameMapKey *)
+(* typedname.go:127 typedNameFromMapKey; None = panic InvalidTypedNameMapKey *)
 Definition tn_of_key (k : str) : option tname :=
   match split_last_slash k with
   | Some (pfx, name) =>
@@ -210,8 +210,7 @@ Fixpoint set_ents (st : lstate) (l : nat) (es : ents) : lstate :=
 Definition own_ents (st : lstate) (l : nat) : ents :=
   match nth_error st l with Some nd => nents nd | None => [] end.
 
-(* `m[k] = e` on a Go map resp. `*old = *entry` on the entry the map holds for k: afterwards the map has
-   exactly one entry for k, with value e.  A Go map has no order; the association list keeps one pair
+(* `m[k] = e` on a Go map: afterwards the map has exactly one entry for k, with value e.  A Go map has no order; the association list keeps one pair
    per key and the position of a pair carries no meaning (the pair for k is moved to the end). *)
 Fixpoint ents_remove (es : ents) (k : str) : ents :=
   match es with
@@ -225,37 +224,40 @@ Inductive ecode := ERedefine | ERedefineType | EOther.
 (* result of SetEntry: the returned entry's value / a panic with a reported error / ill-formed tree *)
 Inductive sres := SOk (e : option val) | SErr (c : ecode) | SStuck.
 
-(* loader.go:108 basicLoader.GetEntry: None = no entry, Some None = cached miss *)
+(* loader.go:120 basicLoader.GetEntry: None = no entry, Some None = cached miss *)
 Definition b_get (es : ents) (n : tname) : option (option val) := assoc (map_key n) es.
 
-(* loader.go:115 basicLoader.HasEntry: found && e.Value() != nil *)
+(* loader.go:127 basicLoader.HasEntry: found && e.Value() != nil *)
 Definition b_has (es : ents) (n : tname) : bool :=
   match assoc (map_key n) es with Some (Some _) => true | _ => false end.
 
-(* loader.go:122 basicLoader.SetEntry *)
+(* loader.go:134 basicLoader.SetEntry (after e06ca50, 6364f0d) *)
 Definition b_set (es : ents) (n : tname) (e : option val) : ents * sres :=
   match assoc (map_key n) es with
-  | Some None => (ents_put es (map_key n) e, SOk e)                         (* :128 *old = *entry; return old *)
-  | Some (Some ov) =>
+  | Some old =>
     match e with
+    | None => (es, SOk old)                                                 (* :139 a cached miss never replaces, nor conflicts with, what is there *)
     | Some nv =>
-      if val_same ov nv then (es, SOk (Some ov))                            (* :133 *)
-      else if val_equals ov nv then (es, SOk (Some ov))                     (* :136 *)
-      else if (vty ov && vty nv)%bool then (es, SErr ERedefineType)         (* :140-146 *)
-      else (es, SErr ERedefine)                                             (* :149 *)
-    | None => (es, SErr ERedefine)                                          (* nv == nil: no test succeeds, :149 *)
+      match old with
+      | None => (ents_put es (map_key n) e, SOk e)                          (* :144 the entry without value is replaced *)
+      | Some ov =>
+        if val_same ov nv then (es, SOk (Some ov))                          (* :150 ov == nv *)
+        else if val_equals ov nv then (es, SOk (Some ov))                   (* :153 Equality *)
+        else if (vty ov && vty nv)%bool then (es, SErr ERedefineType)       (* :157-163 *)
+        else (es, SErr ERedefine)                                           (* :166 *)
+      end
     end
-  | None => (ents_put es (map_key n) e, SOk e)                              (* :151 *)
+  | None => (ents_put es (map_key n) e, SOk e)                              (* :168 *)
   end.
 
 (* result of LoadEntry: the entry (None = nil) / a panic / ill-formed tree or out of fuel *)
 Inductive lres := LEnt (e : option (option val)) | LPanic (c : ecode) | LStuck.
 
-(* loader.go:185 parentedLoader.LoadEntry, given the outcome of l.parent.LoadEntry *)
+(* loader.go:198 parentedLoader.LoadEntry, given the outcome of l.parent.LoadEntry *)
 Definition parented_after (pr : lstate * lres) (l : nat) (n : tname) : lstate * lres :=
   let '(st1, r) := pr in
   match r with
-  | LEnt None | LEnt (Some None) => (st1, LEnt (b_get (own_ents st1 l) n))  (* :187 entry == nil || entry.Value() == nil *)
+  | LEnt None | LEnt (Some None) => (st1, LEnt (b_get (own_ents st1 l) n))  (* :200 entry == nil || entry.Value() == nil *)
   | _ => (st1, r)
   end.
 
@@ -267,8 +269,8 @@ Fixpoint load_entry (fuel : nat) (st : lstate) (l : nat) (n : tname) : lstate * 
     | None => (st, LStuck)
     | Some nd =>
       match nkind nd with
-      | KBasic => (st, LEnt (b_get (nents nd) n))                           (* loader.go:104 *)
-      | KDep =>                                                             (* dependency.go:29 *)
+      | KBasic => (st, LEnt (b_get (nents nd) n))                           (* loader.go:116 *)
+      | KDep =>                                                             (* dependency.go:30 *)
         match b_get (nents nd) n with
         | Some e => (st, LEnt (Some e))
         | None =>
@@ -276,18 +278,18 @@ Fixpoint load_entry (fuel : nat) (st : lstate) (l : nat) (n : tname) : lstate * 
              not cached: `return &loaderEntry{nil, nil}` *)
           (st, LEnt (Some None))
         end
-      | KParented p => parented_after (load_entry f st p n) l n             (* loader.go:185 *)
-      | KTypeSet p ts =>                                                    (* loader.go:233 *)
+      | KParented p => parented_after (load_entry f st p n) l n             (* loader.go:198 *)
+      | KTypeSet p ts =>                                                    (* loader.go:247 *)
         match ts_get_type ts n with
-        | Some tp => (st, LEnt (Some (Some tp)))                            (* :234 a fresh entry holding the type *)
+        | Some tp => (st, LEnt (Some (Some tp)))                            (* :248 a fresh entry holding the type *)
         | None =>
-          let '(st1, r) := parented_after (load_entry f st p n) l n in      (* :237 *)
+          let '(st1, r) := parented_after (load_entry f st p n) l n in      (* :251 *)
           match r with
           | LEnt None =>
             match relative_to n (ts_typed_name ts) with
-            | Some child => load_entry f st1 l child                        (* :240 *)
+            | Some child => load_entry f st1 l child                        (* :254 *)
             | None =>
-              let '(es', r') := b_set (own_ents st1 l) n None in            (* :243 l.parentedLoader.SetEntry *)
+              let '(es', r') := b_set (own_ents st1 l) n None in            (* :257 l.parentedLoader.SetEntry *)
               (set_ents st1 l es', match r' with SOk _ => LEnt (Some None) | SErr c => LPanic c | SStuck => LStuck end)
             end
           | _ => (st1, r)
@@ -306,24 +308,24 @@ Fixpoint has_entry (fuel : nat) (st : lstate) (l : nat) (n : tname) : option boo
     | None => None
     | Some nd =>
       match nkind nd with
-      | KBasic | KDep => Some (b_has (nents nd) n)                          (* loader.go:115 *)
-      | KParented p =>                                                      (* loader.go:181 *)
+      | KBasic | KDep => Some (b_has (nents nd) n)                          (* loader.go:127 *)
+      | KParented p =>                                                      (* loader.go:194 *)
         match has_entry f st p n with
         | Some true => Some true
         | Some false => Some (b_has (nents nd) n)
         | None => None
         end
-      | KTypeSet p ts =>                                                    (* loader.go:220 *)
+      | KTypeSet p ts =>                                                    (* loader.go:234 *)
         match ts_get_type ts n with
         | Some _ => Some true
         | None =>
-          match has_entry f st p n with                                     (* :224 parentedLoader.HasEntry *)
+          match has_entry f st p n with                                     (* :238 parentedLoader.HasEntry *)
           | None => None
           | Some true => Some true
           | Some false =>
             if b_has (nents nd) n then Some true
             else match relative_to n (ts_typed_name ts) with
-                 | Some child => has_entry f st l child                     (* :228 *)
+                 | Some child => has_entry f st l child                     (* :242 *)
                  | None => Some false
                  end
           end
@@ -346,8 +348,8 @@ Fixpoint set_entry (fuel : nat) (st : lstate) (l : nat) (n : tname) (e : option 
     | None => (st, SStuck)
     | Some nd =>
       match nkind nd with
-      | KTypeSet p _ => set_entry f st p n e                                (* loader.go:248 l.parent.(DefiningLoader).SetEntry *)
-      | _ => let '(es', r) := b_set (nents nd) n e in (set_ents st l es', r) (* loader.go:122 *)
+      | KTypeSet p _ => set_entry f st p n e                                (* loader.go:263 l.parent.(DefiningLoader).SetEntry *)
+      | _ => let '(es', r) := b_set (nents nd) n e in (set_ents st l es', r) (* loader.go:134 *)
       end
     end
   end.
@@ -362,18 +364,18 @@ Definition sort_keys (l : list str) : list str := fold_right ins_key [] l.
 
 Inductive dres := DNames (ks : list str) | DPanic (c : ecode) | DStuck.
 
-(* the body of `for k, e := range l.namedEntries` of Discover (loader.go:90, :162): the keys appended *)
+(* the body of `for _, k := range l.boundKeys()` of Discover (loader.go:92, :179; boundKeys :104): the keys appended *)
 Fixpoint disc_own (hasp : tname -> option bool) (P : tname -> bool) (es : ents) : dres :=
   match es with
   | [] => DNames []
   | (k, e) :: es' =>
     match e with
-    | None => disc_own hasp P es'                                           (* :91/:163 a cached miss is not a binding *)
+    | None => disc_own hasp P es'                                           (* :108 boundKeys: a cached miss is not a binding *)
     | Some _ =>
       match tn_of_key k with
       | None => DPanic EOther                                               (* InvalidTypedNameMapKey *)
       | Some tn =>
-        match hasp tn with                                                  (* :168 !l.parent.HasEntry(tn) *)
+        match hasp tn with                                                  (* :181 !l.parent.HasEntry(tn) *)
         | None => DStuck
         | Some true => disc_own hasp P es'
         | Some false =>
@@ -385,13 +387,13 @@ Fixpoint disc_own (hasp : tname -> option bool) (P : tname -> bool) (es : ents) 
     end
   end.
 
-(* loader.go:159 parentedLoader.Discover, given the outcome of l.parent.Discover *)
+(* loader.go:176 parentedLoader.Discover, given the outcome of l.parent.Discover *)
 Definition disc_parented (pf : dres) (st : lstate) (p : nat) (es : ents) (P : tname -> bool) : dres :=
   match pf with
   | DNames found =>
     match disc_own (has_entry_top st p) P es with
     | DNames [] => DNames found                                             (* !added: not sorted again *)
-    | DNames add => DNames (sort_keys (found ++ add))                       (* :176 *)
+    | DNames add => DNames (sort_keys (found ++ add))                       (* :189 *)
     | other => other
     end
   | other => other
@@ -407,19 +409,19 @@ Fixpoint discover (fuel : nat) (st : lstate) (l : nat) (P : tname -> bool) : dre
     | None => DStuck
     | Some nd =>
       match nkind nd with
-      | KBasic | KDep =>                                                    (* loader.go:88 *)
+      | KBasic | KDep =>                                                    (* loader.go:90 *)
         match disc_own (fun _ => Some false) P (nents nd) with
         | DNames ks => DNames (sort_keys ks)
         | other => other
         end
-      | KParented p => disc_parented (discover f st p P) st p (nents nd) P  (* loader.go:159 *)
-      | KTypeSet p ts =>                                                    (* loader.go:201 *)
-        let tns := map (fun kv => new_typed_name ns_type (fst kv) (ts_auth ts)) (ts_types ts) in   (* :207 *)
+      | KParented p => disc_parented (discover f st p P) st p (nents nd) P  (* loader.go:176 *)
+      | KTypeSet p ts =>                                                    (* loader.go:215 *)
+        let tns := map (fun kv => new_typed_name ns_type (fst kv) (ts_auth ts)) (ts_types ts) in   (* :221 *)
         let inset := map map_key tns in
         let found := map map_key (filter P tns) in
-        let P' := fun tn => negb (mem_key (map_key tn) inset) && P tn in    (* :214 *)
+        let P' := fun tn => negb (mem_key (map_key tn) inset) && P tn in    (* :228 *)
         match disc_parented (discover f st p P') st p (nents nd) P' with
-        | DNames pf => DNames (sort_keys (found ++ pf))                     (* :215-216 *)
+        | DNames pf => DNames (sort_keys (found ++ pf))                     (* :229-230 *)
         | other => other
         end
       end
@@ -441,7 +443,7 @@ Definition pred_eval (p : pred) (n : tname) : bool :=
 Inductive op :=
 | ONewDep                                  (* px.NewDependencyLoader(nil) *)
 | ONewParented (l : nat)                   (* px.NewParentedLoader(l) *)
-| OFork (l : nat)                          (* Context.Fork with loader l: internal/context.go:108 *)
+| OFork (l : nat)                          (* Context.Fork with loader l: internal/context.go:106 *)
 | ONewTypeSet (l t : nat)                  (* px.NewTypeSetLoader(l, tsets[t]) *)
 | ODefine (l : nat) (n : tname) (v : val)  (* l.SetEntry(n, NewLoaderEntry(v, nil)); px.AddTypes *)
 | OLoad (l : nat) (n : tname)              (* px.Load with l as the context's loader *)
@@ -492,18 +494,18 @@ Definition step (cfg : config) (st : lstate) (o : op) : lstate * out :=
             | SStuck => RStuck
             end)
     else (st, RBadLoader)
-  | OLoad l n0 =>                                                           (* loader.go:70 load() *)
+  | OLoad l n0 =>                                                           (* loader.go:71 load() *)
     if Nat.ltb l (length st) then
       let n := norm n0 in
-      if negb (str_eqb (tn_auth n) (cfg_auth cfg)) then (st, RFound None)   (* :72 every NameAuthority() is the runtime one *)
+      if negb (str_eqb (tn_auth n) (cfg_auth cfg)) then (st, RFound None)   (* :73 every NameAuthority() is the runtime one *)
       else
-        let '(st1, r) := load_entry (fuel_of l n) st l n in                 (* :75 *)
+        let '(st1, r) := load_entry (fuel_of l n) st l n in                 (* :76 *)
         match r with
-        | LEnt None =>                                                      (* :76 every modelled loader is a DefiningLoader *)
-          let '(st2, r') := set_entry (S l) st1 l n None in                 (* :78 *)
+        | LEnt None =>                                                      (* :77 every modelled loader is a DefiningLoader *)
+          let '(st2, r') := set_entry (S l) st1 l n None in                 (* :80 *)
           (st2, match r' with SOk _ => RFound None | SErr c => RErr c | SStuck => RStuck end)
-        | LEnt (Some None) => (st1, RFound None)                            (* :82 *)
-        | LEnt (Some (Some v)) => (st1, RFound (Some v))                    (* :85 *)
+        | LEnt (Some None) => (st1, RFound None)                            (* :84 *)
+        | LEnt (Some (Some v)) => (st1, RFound (Some v))                    (* :87 *)
         | LPanic c => (st1, RErr c)
         | LStuck => (st1, RStuck)
         end
@@ -514,7 +516,7 @@ Definition step (cfg : config) (st : lstate) (o : op) : lstate * out :=
       let '(st1, r) := load_entry (fuel_of l n) st l n in
       (st1, match r with LEnt e => REntry (eobs_of e) | LPanic c => RErr c | LStuck => RStuck end)
     else (st, RBadLoader)
-  | OGetEntry l n0 =>                                                       (* loader.go:108, not overridden by any modelled loader *)
+  | OGetEntry l n0 =>                                                       (* loader.go:120, not overridden by any modelled loader *)
     if Nat.ltb l (length st) then (st, REntry (eobs_of (b_get (own_ents st l) (norm n0))))
     else (st, RBadLoader)
   | OHas l n0 =>
